@@ -25,7 +25,7 @@
 (*         (1e-5 full scale^2), pk peeked decoder control state after the call  *)
 (***************************************************************************)
 EXTENDS Link, Json, IOUtils, TLC
-CONSTANTS M1, M2, M2After, M2Late, M2LateAfter, M3Num, M3Den, M4, M5, M5After,      \* calibrated thresholds (centi-dB; M3 as a ratio of energies), R3
+CONSTANTS M1, M2, M2After, M2Late, M2LateAfter, M3Num, M3Den, M4, M5, M5After, M6, M6After,      \* calibrated thresholds (centi-dB; M3 as a ratio of energies), R3
           LevelFloorNeg,                  \* level clauses only above this level (negated centi-dB), R2
           MinFecFrames,                   \* M3 is judged per stream once that many frames were recovered
           CheckM3, CheckM4                \* clauses that calibration left in force
@@ -44,7 +44,7 @@ NoW == [on |-> FALSE]
 \* often the clause applied) - printed per stream for the calibration table, not judged
 NoObs == -100000
 NoAcc == [sf |-> 0, sp |-> 0, nf |-> 0, drift |-> 0, o1 |-> NoObs, o2 |-> NoObs, o2b |-> NoObs, o2c |-> NoObs, o4 |-> NoObs, n1 |-> 0, n2 |-> 0, n4 |-> 0,
-          o5 |-> NoObs, o5b |-> NoObs, n5 |-> 0, sf3 |-> 0, sp3 |-> 0, nf3 |-> 0, qpos |-> 0]
+          o5 |-> NoObs, o5b |-> NoObs, n5 |-> 0, sf3 |-> 0, sp3 |-> 0, nf3 |-> 0, qpos |-> 0, o6 |-> NoObs, n6 |-> 0]
 BigErr == 100000
 Mn(a, b) == IF a < b THEN a ELSE b
 Mx(a, b) == IF a > b THEN a ELSE b
@@ -142,6 +142,23 @@ CleanSpeechLayer == /\ cf.sig = 11 /\ D!PlcMode(w.d) \in {MODE_SILK, MODE_HYBRID
 \* speech-like signal; an isolated loss (the packets before it arrived) recovered by a one-packet FEC call
 StrongFecStream == /\ cf.fm = MODE_SILK /\ cf.Fs = 16000 /\ cf.ch = 1 /\ cf.fec >= 1 /\ cf.loss >= 20 /\ cf.br >= 32000
                    /\ cf.sig \in {1, 11, 12} /\ cf.U \in {8, 16, 24}
+\* sharp convergence (R2 sub-domain with margin, see the calibration table): stream held in ONE mode of the speech
+\* family (speech only or hybrid: no mode transitions), >= 16 kHz, 10 ms packets, talk spurts with pauses (family 11),
+\* exactly one concealment call in this receiver run (a single isolated lost packet).  Once the stream has passed a
+\* pause after the loss (a packet the loss-free twin renders as silence) and M6After units have gone by, every loud
+\* packet (twin level >= LoudFloor) is within -M6 of the twin, relative to its own level.
+LoudFloor == -2500
+ConvDomain == /\ cf.fm \in {MODE_SILK, MODE_HYBRID} /\ cf.sig = 11 /\ cf.dtx = 0 /\ cf.U = 4 /\ cf.Fs >= 16000
+              /\ cf.br >= 24000 /\ cf.fo = cf.Fs /\ cf.co = cf.ch          \* >= 24 kb/s, decoder at the encoder's rate and channel count
+              /\ w.nlost = 1
+\* over the packets of a T event: <<worst error re level among the judged packets, a pause has been passed>>
+RECURSIVE WorstRel(_, _, _, _, _)
+WorstRel(e, j, since0, after, paused) ==
+  IF j > Len(e.es) THEN <<NoObs, paused>>
+  ELSE LET p2 == paused \/ e.ts[j] <= -9000
+           rest == WorstRel(e, j + 1, since0, after, p2) IN
+       IF paused /\ e.ts[j] >= LoudFloor /\ since0 + (j - 1) * cf.U >= after
+       THEN <<Mx(e.es[j] - e.ts[j], rest[1]), rest[2]>> ELSE rest
 IsolatedFec(e) == StrongFecStream /\ FecRecovers(e) /\ e.u = cf.U /\ w.run = 0 /\ w.since >= 2 * cf.U
 
 RxWhy(e) ==
@@ -172,6 +189,8 @@ TWhy(e) ==
   ELSE IF \E j \in 1..Len(e.rets) : e.rets[j] # cf.U * Qo THEN <<"returned duration", e.rets>>
   ELSE IF e.ed # e.dd THEN <<"final ranges of received packets", e.i, e.n>>
   ELSE IF e.e >= 30000 THEN <<"output not finite">>
+  ELSE IF ConvDomain /\ WorstRel(e, 1, w.since, M6After, w.paused)[1] > 0 - M6
+       THEN <<"output diverges from the loss-free decoder long after an isolated loss", WorstRel(e, 1, w.since, M6After, w.paused)[1], w.since>>
   ELSE <<>>
 
 \* model conformance of the decoder's control state (DecCtl): the observed state after the call is
@@ -202,7 +221,7 @@ Step(e) ==
               ELSE /\ l' = l + 1 /\ UNCHANGED <<cf, w>>
                    /\ acc' = IF acc.qpos = 0 /\ e.tl <= -9000 THEN [acc EXCEPT !.qpos = (e.i + 1) * cf.U] ELSE acc
     [] e.k = "W" ->
-         /\ w' = [on |-> TRUE, pos |-> e.start * cf.U, run |-> 0, lv5 |-> NoLevels, since |-> 0, lost |-> FALSE, best |-> BigErr, tailu |-> 0, d |-> DecOfPeek(e.pk)]
+         /\ w' = [on |-> TRUE, pos |-> e.start * cf.U, run |-> 0, lv5 |-> NoLevels, since |-> 0, lost |-> FALSE, nlost |-> 0, paused |-> FALSE, best |-> BigErr, tailu |-> 0, d |-> DecOfPeek(e.pk)]
          /\ l' = l + 1 /\ UNCHANGED <<cf, acc>>
     [] e.k = "rx" /\ e.t = "T" ->
          IF ~w.on THEN Reject(<<"harness: no receiver run">>)
@@ -211,8 +230,11 @@ Step(e) ==
               ELSE /\ w' = [w EXCEPT !.pos = w.pos + e.u, !.run = 0, !.since = CapU(w.since + e.u),
                                      !.lv5 = <<e.tl, e.tl, e.tl, e.tl, e.tl>>, !.d = DecOfPeek(e.pk),
                                      !.best = IF w.lost /\ e.tl >= LevelFloor THEN Mn(w.best, e.e - e.tl) ELSE w.best,
-                                     !.tailu = CapU(w.tailu + e.u)]
-                   /\ l' = l + 1 /\ UNCHANGED <<cf, acc>>
+                                     !.tailu = CapU(w.tailu + e.u),
+                                     !.paused = WorstRel(e, 1, w.since, 0, w.paused)[2]]
+                   /\ acc' = IF ConvDomain /\ WorstRel(e, 1, w.since, 80, w.paused)[1] > NoObs
+                              THEN [acc EXCEPT !.o6 = Mx(acc.o6, WorstRel(e, 1, w.since, 80, w.paused)[1]), !.n6 = IF acc.n6 < 1000000 THEN acc.n6 + 1 ELSE acc.n6] ELSE acc
+                   /\ l' = l + 1 /\ UNCHANGED cf
     [] e.k = "rx" ->
          IF ~w.on THEN Reject(<<"harness: no receiver run">>)
          ELSE LET why == RxWhy(e)
@@ -228,7 +250,9 @@ Step(e) ==
                                      !.run = IF good THEN 0 ELSE CapU(w.run + units),
                                      !.since = IF good THEN CapU(w.since + units) ELSE 0,
                                      !.lost = w.lost \/ ~good,
+                                     !.nlost = IF good \/ w.nlost >= 1000 THEN w.nlost ELSE w.nlost + 1,
                                      !.best = IF good THEN w.best ELSE BigErr,
+                                     !.paused = IF good THEN (w.paused \/ (w.lost /\ e.tl <= -9000)) ELSE FALSE,
                                      !.tailu = IF good THEN w.tailu ELSE 0,
                                      !.lv5 = IF good THEN PushLevel(w.lv5, e.lv) ELSE w.lv5,
                                      !.d = DecOfPeek(e.pk)]
@@ -264,7 +288,7 @@ Step(e) ==
          \* (judged on the StrongFecStream sub-domain, isolated losses only)
          IF CheckM3 /\ acc.nf3 >= MinFecFrames /\ acc.sf3 > (acc.sp3 \div M3Den) * M3Num
          THEN Reject(<<"FEC is not far more accurate than concealment", acc.sf3, acc.sp3, acc.nf3>>)
-         ELSE /\ PrintT("OBS " \o ToString(<<cf.x, acc.nf, acc.sf, acc.sp, acc.o1, acc.n1, acc.o2, acc.n2, acc.o4, acc.n4, acc.o2b, acc.o2c, acc.o5, acc.o5b, acc.n5, acc.nf3, acc.sf3, acc.sp3>>))
+         ELSE /\ PrintT("OBS " \o ToString(<<cf.x, acc.nf, acc.sf, acc.sp, acc.o1, acc.n1, acc.o2, acc.n2, acc.o4, acc.n4, acc.o2b, acc.o2c, acc.o5, acc.o5b, acc.n5, acc.nf3, acc.sf3, acc.sp3, acc.o6, acc.n6>>))
               /\ cf' = NoCfg /\ w' = NoW /\ acc' = [NoAcc EXCEPT !.drift = acc.drift] /\ l' = l + 1
     [] OTHER -> Reject(<<"unexpected event", e.k>>)       \* Hang, Canary, bad
 
